@@ -146,6 +146,13 @@ func attackPairs() [][2]*sbom.Node {
 		{{Id: "i", Identifiers: map[int32]string{1: "p", 12: "q"}}, {Id: "i", Identifiers: map[int32]string{1: "p1", 2: "q"}}},
 		{{Id: "i", ExternalReferences: []*sbom.ExternalReference{{Url: "u", Hashes: map[int32]string{1: "d41d8c", 12: "af1349"}}}},
 			{Id: "i", ExternalReferences: []*sbom.ExternalReference{{Url: "u", Hashes: map[int32]string{1: "d41d8c1", 2: "af1349"}}}}},
+		// text that a formatting function would read as a directive
+		{{Id: "i", Name: "release%2Fv1"}, {Id: "i", Name: "release%3Fv1"}},
+		{{Id: "i", UrlHome: "https://e.org/a%20b"}, {Id: "i", UrlHome: "https://e.org/a%2520b"}},
+		{{Id: "i", Comment: "100%+free"}, {Id: "i", Comment: "100%-free"}},
+		{{Id: "i", ExternalReferences: []*sbom.ExternalReference{{Url: "https://e.org/protobom%20sbom.json", Comment: "50%d"}}},
+			{Id: "i", ExternalReferences: []*sbom.ExternalReference{{Url: "https://e.org/protobom%2520sbom.json", Comment: "50%d"}}}},
+		{{Id: "i", Suppliers: []*sbom.Person{{Name: "n%s"}}}, {Id: "i", Suppliers: []*sbom.Person{{Name: "n%v"}}}},
 		// a map entry whose value is the empty string is an entry
 		{{Id: "i", Hashes: map[int32]string{1: "a", 2: ""}}, {Id: "i", Hashes: map[int32]string{1: "a"}}},
 		{{Id: "i", ExternalReferences: []*sbom.ExternalReference{{Url: "u", Hashes: map[int32]string{1: "a", 2: ""}}}},
@@ -265,6 +272,18 @@ func nodeRun(args []string) error {
 				"ab": x.Equal(y), "bc": y.Equal(z), "ac": x.Equal(z)})
 		}
 	}
+	// one person OBJECT reachable twice in a contact tree (a value like any other: its projection lists the person twice)
+	{
+		helpdesk := &sbom.Person{Name: "helpdesk", Email: "help@example.org"}
+		legal := &sbom.Person{Name: "legal", Contacts: []*sbom.Person{helpdesk}}
+		shared := &sbom.Node{Id: "i", Name: "n", Suppliers: []*sbom.Person{{Name: "org", IsOrg: true, Contacts: []*sbom.Person{legal, helpdesk}}},
+			Originators: []*sbom.Person{helpdesk, helpdesk}}
+		emit(shared, cloneNode(shared), "shared-contact")
+		emit(cloneNode(shared), shared, "shared-contact-rev")
+		fewer := cloneNode(shared)
+		fewer.Suppliers[0].Contacts = fewer.Suppliers[0].Contacts[:1]
+		emit(shared, fewer, "shared-contact-dropped")
+	}
 	for _, p := range attackPairs() {
 		emit(p[0], p[1], "attack")
 		emit(p[1], p[0], "attack-rev")
@@ -339,6 +358,19 @@ func genEdgeListEq(r *rand.Rand, w *ndWriter, sid *int, n int) {
 	}
 	emitEdgeEq(w, sid, &sbom.Edge{From: "a", To: []string{"b", "c"}}, &sbom.Edge{From: "a", To: []string{"b+c"}}, "attack")
 	emitEdgeEq(w, sid, &sbom.Edge{From: "a", Type: 5, To: []string{"b"}}, &sbom.Edge{From: "a:contains:b", Type: 5}, "attack")
+	{
+		mk := func(t1, t2 []string) *sbom.NodeList {
+			nl := &sbom.NodeList{}
+			for _, id := range []string{"app", "liba", "libb", "libc", "libz"} {
+				nl.Nodes = append(nl.Nodes, &sbom.Node{Id: id})
+			}
+			nl.Edges = []*sbom.Edge{{Type: 5, From: "app", To: t1}, {Type: 5, From: "app", To: t2}}
+			return nl
+		}
+		emitListEq(w, sid, mk([]string{"liba", "libz"}, []string{"libb", "libc"}), mk([]string{"libz", "liba"}, []string{"libb", "libc"}), "interleaved-targets")
+		emitListEq(w, sid, mk([]string{"liba", "libz"}, []string{"libb", "libc"}), mk([]string{"libb", "libc"}, []string{"libz", "liba"}), "interleaved-targets-swapped")
+		emitListEq(w, sid, mk([]string{"liba", "libz"}, []string{"libb", "libc"}), mk([]string{"liba", "libb"}, []string{"libz", "libc"}), "interleaved-regrouped")
+	}
 	// lists beyond any size threshold: equal, and differing in one attribute of a node near the end / in the middle
 	for _, size := range []int{150, 257} {
 		big := &sbom.NodeList{}
